@@ -127,6 +127,27 @@ def main(tier=None, replay=None):
         cfg = dict(c, ic=ics_of(float(systems[name].mu))[c["kind"]], tf=c["tf10"] / 10.0, steps={"fixed": 4000, "adaptive": 200}[c["method"]])
         stm_case(ck, cs, systems[name], cfg)
 
+    # short spans on the default dense output grid (2000 nodes): "for every initial state and time span".  Over tf = 1.5e-5 the STM is
+    # I + A tf + O(tf^2) with A the (C01-verified) Jacobian of the field at x0; an implementation that answers "nearly zero" spans
+    # without integrating returns I.  Both directions, every method family; a state near the secondary makes |A| large.
+    from hiten.algorithms.dynamics.rtbp import _compute_stm, _jacobian_crtbp
+    em0 = systems.get("earth-moon") or System.from_bodies("earth", "moon")
+    mu0 = float(em0.mu)
+    for (method, order), fwd, (kind, x0) in itertools.product((("adaptive", 8), ("fixed", 8), ("adaptive", 5)), (1, -1),
+                                                              (("near-secondary", [1 - mu0 + 0.03, 0.0, 0.01, 0.0, 0.2, 0.0]),
+                                                               ("generic", ics_of(mu0)["spatial"]))):
+        tf = 1.5e-5
+        x0 = np.array(x0, dtype=float)
+        A = np.asarray(_jacobian_crtbp(x0[0], x0[1], x0[2], mu0), dtype=float)
+        kw = {"rtol": 1e-12, "atol": 1e-12} if method == "adaptive" else {}
+        label = f"earth-moon|{method}{order}|tf={tf:g}|default-steps|{kind}|forward={fwd}"
+        t = cs.trace(label, {"short_span_stm": -30, "short_span_state": -30}, {"forward": fwd, "part": "short-span"})
+        ck.count(("stm-short-span", label), True)
+        xs, times, Phi, PHI = _compute_stm(em0.var_dynsys, x0, tf, forward=fwd, method=method, order=order, **kw)
+        lin = fwd * tf * A
+        cs.obs(t, "short_span_stm", float(np.max(np.abs(Phi - np.eye(6) - lin))) / float(np.max(np.abs(lin))))
+        f0 = np.asarray(em0.dynsys.rhs(0.0, x0), dtype=float)
+        cs.obs(t, "short_span_state", float(np.max(np.abs(np.asarray(xs[-1], dtype=float) - x0 - fwd * tf * f0))) / float(np.max(np.abs(tf * f0))))
     # periodic orbits: the monodromy maps the velocity vector to itself
     em = systems.get("earth-moon") or System.from_bodies("earth", "moon")
     orbs = [("halo", dict(amplitude_z=0.2, zenith="southern"), 1), ("lyapunov", dict(amplitude_x=4e-3), 1)]
